@@ -16,6 +16,11 @@ pub(crate) fn ntt<const KL: usize>(w: &[R; KL]) -> [T; KL] {
     // 2: w_hat[j] ← w_j
     // 3: end for
     let mut w_hat: [T; KL] = core::array::from_fn(|x| T(core::array::from_fn(|n| w[x].0[n])));
+    #[cfg(feature = "verif-hooks")]
+    if crate::verif_hooks::tracing() {
+        let m = crate::verif_hooks::max_abs(w_hat.iter().map(|p| &p.0));
+        crate::verif_hooks::emit("ntt_in", [m, 0, 0, 0, 0, 0, 0, 0]);
+    }
 
     // for each element of w_hat
     for w_poly in &mut w_hat {
@@ -71,6 +76,11 @@ pub(crate) fn ntt<const KL: usize>(w: &[R; KL]) -> [T; KL] {
         // end for each element of w_hat
     }
 
+    #[cfg(feature = "verif-hooks")]
+    if crate::verif_hooks::tracing() {
+        let m = crate::verif_hooks::max_abs(w_hat.iter().map(|p| &p.0));
+        crate::verif_hooks::emit("ntt_out", [m, 0, 0, 0, 0, 0, 0, 0]);
+    }
     // 20: return ŵ
     w_hat
 }
@@ -91,6 +101,12 @@ pub(crate) fn inv_ntt<const KL: usize>(w_hat: &[T; KL]) -> [R; KL] {
     // 2: w_j ← w_hat[j]
     // 3: end for
     let mut w_out: [R; KL] = core::array::from_fn(|x| R(core::array::from_fn(|n| w_hat[x].0[n])));
+    #[cfg(feature = "verif-hooks")]
+    if crate::verif_hooks::tracing() {
+        let a = crate::verif_hooks::max_abs(w_hat.iter().map(|p| &p.0));
+        let c = crate::verif_hooks::max_abs(w_out.iter().map(|p| &p.0));
+        crate::verif_hooks::emit("inv_ntt_in", [a, c, 0, 0, 0, 0, 0, 0]);
+    }
 
     // for each element of w_hat
     for w_poly in &mut w_out {
@@ -140,6 +156,11 @@ pub(crate) fn inv_ntt<const KL: usize>(w_hat: &[T; KL]) -> [R; KL] {
                 // 18: end while
             }
 
+            #[cfg(feature = "verif-hooks")]
+            if crate::verif_hooks::tracing() {
+                let m = crate::verif_hooks::max_abs(core::iter::once(&w_poly.0));
+                crate::verif_hooks::emit("inv_ntt_layer", [len as i64, m, 0, 0, 0, 0, 0, 0]);
+            }
             // 19: len ← 2 · len
             len <<= 1;
 
